@@ -257,6 +257,35 @@ def run_lines(exe, lines, timeout=300, shards=1):
         for k, o in enumerate(outs):
             res[k::shards] = o
         return res
+    # one process per attempt; a process that dies or stops answering is restarted on the unanswered cases, so that
+    # a slow machine (many cases per process) is not mistaken for a hang and one bad case does not hide the others
+    res = []
+    rest = list(lines)
+    restarts = 0
+    while rest:
+        budget = max(timeout, 60 + 0.5 * len(rest))
+        out, timed_out, rc = _run_once(exe, rest, budget)
+        res += out
+        if len(out) == len(rest):
+            break
+        rest = rest[len(out):]
+        restarts += 1
+        if restarts > 40:
+            res += ['not-run'] * len(rest)
+            break
+        if out and timed_out:
+            continue                      # progress was made: go on from the first unanswered case
+        # no progress (or a crash): decide the first unanswered case on its own
+        solo, t1, rc1 = _run_once(exe, rest[:1], 180)
+        if len(solo) == 1:
+            res += solo
+        else:
+            res.append('timeout' if t1 else 'crash(rc=%s)' % rc1)
+        rest = rest[1:]
+    return res
+
+
+def _run_once(exe, lines, timeout):
     env = dict(ENV)
     pre = 'ulimit -s unlimited 2>/dev/null; '
     p = subprocess.Popen(['bash', '-c', pre + 'exec ' + exe], env=env, stdin=subprocess.PIPE,
@@ -273,11 +302,9 @@ def run_lines(exe, lines, timeout=300, shards=1):
         out.pop()
     if len(out) > len(lines):
         out = out[:len(lines)]
-    if len(out) != len(lines):
-        # the process died or hung: attribute it to the first unanswered case
-        first = 'timeout' if timed_out else 'crash(rc=%s)' % p.returncode
-        out = out + [first] + ['not-run'] * (len(lines) - len(out) - 1)
-    return out
+    if len(out) < len(lines) and out and not (so or '').endswith('\n'):
+        out.pop()                         # a partially written last line is not an answer
+    return out, timed_out, p.returncode
 
 
 # ---------------------------------------------------------------------------
